@@ -24,7 +24,9 @@ CONSTANTS Callers, Unit, Mode,     \* as in AsyncDriver: caller -> Seq([dt, twic
           MaxStale,                \* answers to other masters' queries the gateway may report
           MaySilence,              \* the gateway may stop confirming (once)
           ConfPerTwice,            \* confirmations for a send-twice command: 2 (LUBA) or 1 (SCI)
-          FlushAfterConfirm        \* variant: the raw-answer queue is (also) flushed when the frame has been confirmed
+          FlushAfterConfirm,       \* variant: the raw-answer queue is (also) flushed when the frame has been confirmed
+          FlushAt                  \* "acquired": send() flushes left-over answers once it holds the transaction lock (the
+                                   \* code); "called": before it waits for the lock (seeded C16f)
 
 VARIABLES pc, idx, sub, need, results, exc,
           lockHeld, lockOwner, waiters, woken, cancelledW,
@@ -63,7 +65,8 @@ Start(c) ==
     /\ pc[c] = "idle"
     /\ Acquire(c)
     /\ sub' = [sub EXCEPT ![c] = FirstFrame(c, idx[c])]
-    /\ UNCHANGED <<idx, need, results, exc, wire, confq, respq, gw, stale, silent>>
+    /\ respq' = IF FlushAt = "called" /\ Mode[c] = "send" THEN <<>> ELSE respq
+    /\ UNCHANGED <<idx, need, results, exc, wire, confq, gw, stale, silent>>
 
 Grant(c) ==
     /\ pc[c] = "lockwait" /\ woken = c /\ ~lockHeld
@@ -90,7 +93,7 @@ StartsSend(c) == Mode[c] = "sequence" \/ sub[c] = FirstFrame(c, idx[c])
 
 WriteStep(c) ==
     /\ pc[c] = "crit"
-    /\ respq' = IF StartsSend(c) THEN <<>> ELSE respq                \* reset_dali_response()
+    /\ respq' = IF StartsSend(c) /\ (FlushAt = "acquired" \/ Mode[c] = "sequence") THEN <<>> ELSE respq   \* reset_dali_response()
     /\ wire' = Append(wire, <<c, idx[c], sub[c]>>)
     /\ gw' = IF silent THEN gw ELSE gw \o Reports(c, idx[c], sub[c])
     /\ need' = [need EXCEPT ![c] = IF sub[c] = "cmd" /\ Cmd(c).twice THEN ConfPerTwice ELSE 1]
@@ -173,7 +176,11 @@ Deliver ==
     /\ gw # <<>>
     /\ LET it == Head(gw) IN
        /\ confq' = IF it.kind = "conf" THEN Append(confq, it.tag) ELSE confq
-       /\ respq' = IF it.kind = "back" THEN Append(respq, it.tag) ELSE respq      \* a framing error is logged and dropped
+       \* (a framing error is logged and dropped; an answer to another master's query is remembered together with who
+       \* held the transaction lock when it came in)
+       /\ respq' = IF it.kind = "back"
+                   THEN Append(respq, IF it.tag[1] = "other" THEN <<"other", it.tag[2], lockOwner>> ELSE it.tag)
+                   ELSE respq
     /\ gw' = Tail(gw)
     /\ UNCHANGED <<pc, idx, sub, need, results, exc, lockHeld, lockOwner, waiters, woken, cancelledW, wire, stale, silent>>
 
@@ -221,6 +228,11 @@ NoCrossTalk ==
 ExactPairing ==
     \A c \in Callers : \A i \in 1..Len(results[c]) :
         results[c][i] = (IF ~Unit[c][i].query THEN NoRes ELSE IF Outcome[c][i] = "val" THEN <<c, i>> ELSE NoAns)
+\* an answer that belongs to nobody can only be mistaken for one's own if it came in during one's own transaction (after
+\* the flush): never one that arrived while somebody else held the lock, or nobody
+OwnWindow ==
+    \A c \in Callers : \A i \in 1..Len(results[c]) :
+        results[c][i][1] = "other" => results[c][i][3] = c
 CleanEnd == AllDone => ~lockHeld /\ waiters = <<>> /\ woken = None
 EventuallyAllDone == <>AllDone
 =============================================================================
